@@ -13,7 +13,7 @@ import vlib
 PROP = 'C14'
 HEADER = ('From VCu Require Import Sched.\nFrom Coq Require Import List NArith.\n'
           'Import ListNotations.\nOpen Scope N_scope.\n')
-COQ_TARGETS = ['props/C14.vo']
+COQ_TARGETS = ['props/C14.vo', 'cu/Smem.vo']
 
 
 def cmp_guard(g, x, k):
@@ -253,7 +253,7 @@ def nontrivial(case):
         return False
     bars = sum(1 for e in t['evs'] if e['e'] == 'sdone' and e['k'] == 'bar')
     waited = any(e['e'] == 'chk' and any(x == 2 for x in e.get('st', [])) and len(e.get('int', [])) > 0 for e in t['evs'])
-    return (bars >= 2 and case['nwf'] >= 2) or (waited and any(s['op'] in ('fload', 'floadu', 'sload', 'gload', 'scload', 'floadg', 'gloadg', 'sload2') for s in case['prog']))
+    return (bars >= 2 and case['nwf'] >= 2) or (waited and any(s['op'] in ('fload', 'floadu', 'sload', 'gload', 'scload', 'floadg', 'gloadg', 'sload2', 'sx2', 'sx4a', 'sx4b', 'sx4c', 'sx8', 'sx8b') for s in case['prog']))
 
 
 def main(argv):
@@ -321,6 +321,22 @@ def main(argv):
                                        checker='emismatches', ty='ecase')
     eidx = [i for i, c in enumerate(cases) if c.get('coq_emu')]
     emism = [(eidx[i], k) for i, k in emism]
+    # scalar loads: the requests seen on the scalar-memory port against the split of coq/cu/Smem.v
+    scases, sowner = [], []
+    for ci, c in enumerate(cases):
+        byinst = collections.OrderedDict()
+        for q in ((c.get('timing') or {}).get('sreqs') or []):
+            byinst.setdefault(q['i'], []).append(q)
+        for i, qs in byinst.items():
+            scases.append('(%d, %d, [%s])' % (qs[0]['a'], sum(q['n'] for q in qs),
+                          ';'.join('(%d,%d,%s)' % (q['a'], q['n'], 'true' if q['cw'] else 'false') for q in qs)))
+            sowner.append(ci)
+    oks, smism, slog = (True, [], '')
+    if scases:
+        oks, smism, slog = vlib.eval_cases(PROP + 's', 'From VCu Require Import Smem.\nFrom Coq Require Import List NArith.\nImport ListNotations.\nOpen Scope N_scope.\n',
+                                           scases, shard_size=4000, checker='smismatches', ty='scase')
+    smism = [(sowner[i], k) for i, k in smism]
+    rep.obligation('correspondence: read requests of %d scalar loads equal the split of coq/cu/Smem.v' % len(scases), oks and not smism)
     rep.obligation('correspondence: %d scheduler traces replayed by the Coq automaton' % len(idx), okc and not mism)
     rep.obligation('correspondence: %d emulator barrier logs reproduced by the Coq loop model' % len(eidx), oke and not emism)
 
@@ -343,22 +359,29 @@ def main(argv):
         'emu_completion_sends_refused': sum(c['emu'].get('refused', 0) for c in cases if c['emu']),
         'completion_sends_refused': sum(c['timing'].get('refused', 0) for c in cases if c['timing']),
         'cases_with_early_exit': sum(1 for c in cases if any(s['op'] == 'endpgm' and s.get('g') for s in c['prog'])),
-        'model_mismatches': len(mism) + len(emism), 'monitor_failures': len(bad),
+        'scalar_loads_split_checked': len(scases), 'scalar_loads_straddling': sum(1 for x in scases if x.count('(') > 2),
+        'model_mismatches': len(mism) + len(emism) + len(smism), 'monitor_failures': len(bad),
     })
     rep.samples = [{'nwf': c['nwf'], 'nwg': c['nwg'], 'prog': c['prog'], 'timing': c['timing']['result'], 'emu': c['emu']['result']} for c in cases[:3]]
 
-    def fails_monitor(prog, base):
+    import re
+
+    def kind_of(msg):
+        return re.sub(r'\d+', '#', msg or '')
+
+    def fails_monitor(prog, base, want):
+        """the shrunk program must fail in the same way (same message up to numbers)"""
         c = dict(strip(base))
         c['prog'] = prog
         if not prog or prog[-1]['op'] != 'endpgm' or prog[-1].get('g'):
             return False
         out, _ = run_impl(binary, cases=[c])
-        return bool(out) and monitor(out[0]) is not None
+        return bool(out) and kind_of(monitor(out[0])) == want
 
     if bad:
         i, msg = bad[0]
         c = cases[i]
-        small = vlib.ddmin(c['prog'], lambda p: fails_monitor(p, c), budget=40)
+        small = vlib.ddmin(c['prog'], lambda p: fails_monitor(p, c, kind_of(msg)), budget=40)
         c2 = dict(strip(c))
         c2['prog'] = small
         out, _ = run_impl(binary, cases=[c2])
@@ -369,8 +392,12 @@ def main(argv):
             res['timing']['evs'] = res['timing']['evs'][-400:]
         rep.violation({'property': PROP, 'what': monitor(out[0]) if out else msg, 'case': res,
                        'replay_cmd': './check C14 --replay <this file>'}, text=msg)
-    elif mism or emism or not okc or not oke:
-        if mism or not okc:
+    elif mism or emism or smism or not okc or not oke or not oks:
+        if smism or not oks:
+            i, k = smism[0] if smism else (0, 0)
+            what = ('correspondence between coq/cu/Smem.v and executeSMEMLoad: the read requests of a scalar load of case %d '
+                    '(addresses, sizes, CanWaitForCoalesce flags) differ from the model' % i)
+        elif mism or not okc:
             i, k = mism[0] if mism else (0, 0)
             what = ('correspondence between coq/cu/Sched.v and amd/timing/cu/scheduler.go: check point %d of the trace of case %d differs; '
                     'theorems of props/C14.v no longer speak about this code' % (k, i))
